@@ -169,6 +169,7 @@ class ServerWorld:
                 self.ctxt.setMessageTimeout(msg_timeout)
             if blocklist:
                 self.ctxt.setBlockList(set(blocklist))
+                self.block_cfg = set(blocklist)
         # the documentation asks for the configuration "prior to calling the run method": it may be made before or after the server object is built
         if not late_config:
             configure()
@@ -268,7 +269,7 @@ class ServerWorld:
 
     def server_out(self, d, addr):
         self.ev.append(dict(ev="tx", now=self.now(), a=self.aid(addr), n=len(d), ptype=d[12] if len(d) > 12 else -1, count=d[15] if len(d) > 15 else -1,
-                            sealed=self.sealed_for(d, addr), blocked=int(addr[0] in self.ctxt.blocklist)))      # (the block list as configured on the context NOW)
+                            sealed=self.sealed_for(d, addr), blocked=int(addr[0] in self.blocked_now())))      # (the block list as the operator configured it, NOW)
         self.sent_to[addr].append(d)
         for c in self.clients.values():
             if c["addr"] == addr and not c["deaf"]:
@@ -385,6 +386,16 @@ class ServerWorld:
         self.ev.append(dict(ev="req", now=self.now(), c=cid, id=rid))
         c["cl"].send(self.aid(c["addr"]).to_bytes(4, "big") + b"GUAR" + rid.to_bytes(4, "big"), retry=-1)
 
+    block_cfg = None      # the operator's own record of what was configured through the setter (None: read the context's attribute)
+
+    def set_blocklist(self, entries):
+        """through the public setter; the harness remembers the operator's strings - the transport reports peers in exactly these spellings"""
+        self.block_cfg = set(entries)
+        self.ctxt.setBlockList(set(entries))
+
+    def blocked_now(self):
+        return self.block_cfg if self.block_cfg is not None else self.ctxt.blocklist
+
     def resend_challenge(self, cid):
         """an honest client transmits its challenge response again, as a FRESH message (new datagram and message numbers, sealed under the session key,
         the right token) - what a client does that is not sure its first one arrived.  The handshake is long over: nothing may happen twice."""
@@ -475,7 +486,7 @@ class ServerWorld:
                 if loss and kind == "client" and self.rnd.random() < loss:
                     continue
                 q0 = len(self.srv.thread.queue)
-                blocked = int(addr[0] in self.ctxt.blocklist)
+                blocked = int(addr[0] in self.blocked_now())
                 self.srv.datagramReceived(d, addr)
                 dupe = int((d, addr) in self.delivered_before)      # these exact bytes reached the server from this address before: a true duplicate
                 self.delivered_before.add((d, addr))
